@@ -49,6 +49,7 @@ def snapshot(c):
     out = {
         "config_block": bytes(c.config_block),
         "settings_tuple": [(s.index.value, s.type.value, s.length, bytes(s.value)) for s in c.settings_tuple],
+        "settings_tuple_names": [(type(s.index).__name__, s.index.name, type(s.type).__name__, s.type.name) for s in c.settings_tuple],
         "raw_settings": norm(c.raw_settings),
         "raw_settings_by_index": norm(c.raw_settings_by_index),
         "settings": norm(c.settings),
@@ -162,10 +163,14 @@ class State:
                 (52, 1, struct.pack(">H", 1)), (29, 3, P.cstr(b"%windir%\\syswow64\\rundll32.exe", 64)), (30, 3, P.cstr(b"%windir%\\sysnative\\rundll32.exe", 64)),
                 (15, 3, P.cstr(b"\\\\.\\pipe\\msagent_12", 64)), (78, 3, P.enc_beacon_gate(init["gate"])),
             ]  # fmt: skip
+        for idx, val in init.get("legacy") or []:
+            extra.append((idx, 1, struct.pack(">H", val)))
         self.cfg = cfg
         self.block = cfgbuild.block_from_cfg(cfg, keys.der_public("rsa_1024_a"), extra=extra)
         self.cfgobj = lib(BeaconConfig, self.block, what="BeaconConfig(block)")
         self.decoders = []
+        # a second long-lived object whose views are first read by the operations themselves (never by a snapshot)
+        self.lazyobj = self.BeaconConfig(self.block)
         self.initial = lib(lambda: snapshot(self.cfgobj), what="snapshot")
         self.ndecoders = 0
         self.profile_after_decoder = False
@@ -201,6 +206,10 @@ def apply_op(st_, op):
         got_h = sorted(k[1] for k, _ in got[2] if k[1] in want_h or k[1] not in st_.baseline)
         if got_h != want_h or got_p != want_p:
             raise Violation("history:transform_carries_foreign_fields", f"operation {op[:3]!r}: message has headers {got_h} / parameters {got_p}, the program defines {want_h} / {want_p}")
+    if kind in ("view", "profile"):
+        lazy = lib(do_operation, st_.c2, st_.prof, st_.lazyobj, [], op, False, what=f"operation {op[:2]!r} (object without snapshot)")
+        if lazy != want:
+            raise Violation(f"history:{kind}_result_depends_on_history", f"operation {op[:3]!r} on an object whose views were first read by earlier operations differs from a fresh configuration:\n got={str(lazy)[:600]}\nwant={str(want)[:600]}")
     if got != want:
         raise Violation(f"history:{kind}_result_depends_on_history", f"operation {op[:3]!r}: result differs from the same operation on a fresh configuration:\n got={str(got)[:600]}\nwant={str(want)[:600]}")
     now = lib(lambda: snapshot(st_.cfgobj), what="snapshot")
@@ -218,10 +227,17 @@ def apply_op(st_, op):
 
 
 def finish(st_, case, stats):
+    end = lib(lambda: snapshot(st_.lazyobj), what="snapshot (object without earlier snapshot)")
+    if end != st_.initial:
+        a, b = jsonx.loads(st_.initial), jsonx.loads(end)
+        diff = [k for k in a if a[k] != b[k]]
+        raise Violation("history:views_depend_on_access_order", f"an object whose views were first read by the operations of this history differs from a freshly parsed one in {diff}: " + "".join(f" {k}: fresh={str(a[k])[:300]} this={str(b[k])[:300]}" for k in diff[:2]))
     stats.note(case, st_.ndecoders >= 2 or st_.profile_after_decoder, classes=["decoders%d" % min(st_.ndecoders, 3), "profile_after_decoder" if st_.profile_after_decoder else "no_profile_after_decoder"])
 
 
-init_strategy = st.fixed_dictionaries({"cfg": S.http_beacon_config(printable=True), "extras": st.booleans(), "gate": S.gate_flags})
+# settings whose index has two names (16, 17, 48) or belongs to the pre-4.x kill date triple (16, 17, 18), index 36
+_legacy = st.lists(st.tuples(st.sampled_from([16, 17, 18, 48, 36, 6969]), st.sampled_from([0, 1, 2, 12, 28, 2024])), max_size=5, unique_by=lambda t: t[0])
+init_strategy = st.fixed_dictionaries({"cfg": S.http_beacon_config(printable=True), "extras": st.booleans(), "gate": S.gate_flags, "legacy": st.one_of(st.just([]), _legacy)})
 VIEW_NAMES = ["settings", "raw_settings", "settings_by_index", "raw_settings_by_index", "derived", "map:name:1:1", "map:const:0:0", "map:enum:1:0", "map:enum:0:1"]
 
 
@@ -291,7 +307,12 @@ def machine(stats, rec):
         def teardown(self):
             if self.st is not None:
                 stats.evaluations += 1
-                finish(self.st, self.case(), stats)
+                try:
+                    finish(self.st, self.case(), stats)
+                except Violation as v:
+                    if v.key not in rec.known_keys:
+                        rec._failed(v, self.case())
+                        raise
 
     return ConfigMachine
 
